@@ -347,3 +347,24 @@ def _in_columns_loop(enc, loop_of, block):
         if block in _body(enc, h) and 'schema.columns' in enc.loop_root(h):
             return True
     return False
+
+
+def deciding_conditions(f, block, sym=None):
+    """{(condition expression, value on the branch that leads to `block`)} for the switches that decide whether block runs"""
+    g = cfg(f)
+    sym = sym or Sym(f)
+    out = set()
+    lh = loop_headers(f)
+    hdr = {sw for (sw, _n) in lh.values()}
+    for sblk in deciding_switches(f, block):
+        if sblk in hdr:
+            continue
+        t = f.blocks[sblk]['t']
+        vals = []
+        for v, tb in t['targets']:
+            if block in _forward_reach(g, tb) or tb == block:
+                vals.append(str(v))
+        if t.get('else') is not None and (block in _forward_reach(g, t['else']) or t['else'] == block):
+            vals.append('else:' + ','.join(str(v) for v, _ in t['targets']))
+        out.add((switch_condition(f, sblk, sym), '|'.join(vals)))
+    return out
